@@ -327,6 +327,21 @@ class Tree:
                 elif k == "td":
                     ac.add_teardown_callback(lambda l=st[1]: env.log("td", l))
                     env.log("td-reg", st[1])
+                elif k == "tdaw":
+                    # a teardown callback that returns an awaitable which is not a coroutine (an object with __await__)
+                    class _Aw:
+                        def __init__(self, coro: Any) -> None:
+                            self.coro = coro
+
+                        def __await__(self) -> Any:
+                            return self.coro.__await__()
+
+                    async def later(l: str) -> None:
+                        env.log("td", l)  # (runs when the awaitable is awaited - even if that await is then cancelled)
+                        await anyio.lowlevel.checkpoint()
+
+                    ac.add_teardown_callback(lambda l=st[1]: _Aw(later(l)))
+                    env.log("td-reg", st[1])
                 elif k == "tdn":
                     # a teardown callback that registers one more callback while the teardown is running
                     def nesting(l: str = st[1]) -> None:
@@ -471,6 +486,12 @@ class Tree:
                                 env.log("svc-own-td-", label)
 
                         ac.add_teardown_callback(own_td)
+                    elif b[0] == "crash-on-cancel":
+                        try:
+                            await anyio.Event().wait()
+                        finally:
+                            env.log("svc-crash", label)
+                            raise CompFail(f"svc {label}")
                     elif b[0] == "forever":
                         await anyio.Event().wait()
                     elif b[0] == "get":
